@@ -49,4 +49,10 @@ META = {
   text="Generated search over dependency graphs and relative task speeds; the ordering invariant is evaluated on the committed state after every step of a dependant, and the dependant's final rows are bounded from below and above by independent projections.",
   note="Trusted: fakepg (incl. the dependency CTE semantics: distinct on / ANY / order by), sim node, projection model.",
  ),
+ "C04": dict(
+  design_ref="DESIGN.md §4, §5 C04",
+  technique="rapid model-based state machine with shared tables/sources/clients; frame condition on fakepg commit records + per-pair projection equality",
+  text="Generated search over sharing configurations and interleavings (steps, reorg deletions, restarts); every commit is attributed to the stepping pair and must touch only that pair's stamps, and each pair's rows must equal its own projection at quiescence.",
+  note="Trusted: fakepg commit records (rows added/removed per commit with their stamps), sim node, projection model.",
+ ),
 }
